@@ -99,6 +99,20 @@ impl<'a> Evaluator<'a> for RpslEvaluator {
     }
 
     fn sink_error(&mut self, err: &(dyn std::error::Error + Send + Sync + 'static)) -> bool {
+        // A route-set or filter-set that the IRR does not know must make the evaluation fail: sinking
+        // the error would silently evaluate the expression to the empty set.
+        let irr_error = match err.downcast_ref::<Error>() {
+            Some(Error::Irr(irr_error)) => Some(irr_error),
+            _ => err.downcast_ref::<irrc::Error>(),
+        };
+        if let Some(irrc::Error::ResponseErr(
+            Query::RouteSetMembersRecursive(_) | Query::RpslObject(..),
+            irrc::error::Response::KeyNotFound,
+        )) = irr_error
+        {
+            tracing::error!("{err:#}");
+            return false;
+        }
         if let Some(irrc::Error::ResponseErr(
             Query::Ipv4Routes(_) | Query::Ipv6Routes(_),
             irrc::error::Response::KeyNotFound,
